@@ -105,12 +105,16 @@ class Built:
         self.names = {}          # node -> name  (all, incl. choices)
         self.error = None        # exception raised while building, if any
         self.init_auto = {}      # choices auto-resolved during initialisation {cid: option name | None}
+        self.staged = False      # built through the staged (edit in place, initialise again) history
 
     def name(self, node):
         return self.names.get(node, repr(node))
 
 
-def build(spec, ids=None, initialize=True, constrain=True):
+def build(spec, ids=None, initialize=True, constrain=True, staged_edges=None):
+    """staged_edges: derivation edges of the spec that are withheld at first, added IN PLACE to the already initialised graph
+    object, which is then initialised again (in-place editing of an initialised BasicDSG).  Only done if the first
+    initialisation removed / resolved nothing (otherwise the two build histories legitimately differ): b.staged tells."""
     alloc = IdAlloc(ids)
     b = Built()
     dsg = BasicDSG()
@@ -145,7 +149,12 @@ def build(spec, ids=None, initialize=True, constrain=True):
     for name in spec.get('nodes', []):
         if spec.get('add_isolated', False):
             dsg.add_node(N[name])
+    staged = [tuple(e) for e in (staged_edges or [])]
     for u, v in spec.get('edges', []):
+        if (u, v) in staged:
+            dsg.add_node(N[u])
+            dsg.add_node(N[v])
+            continue
         dsg.add_edge(N[u], N[v])
     for kind in ('conn', 'dv', 'met'):
         for name, c in spec.get(kind, {}).items():
@@ -189,8 +198,19 @@ def build(spec, ids=None, initialize=True, constrain=True):
         return cur
 
     prev = dsg.get_taken_single_selection_choices()
+    n_raw = set(dsg.graph.nodes)
     dsg = dsg.set_start_nodes({N[s] for s in spec['starts']})
     prev = grab(dsg, prev)
+    b.staged = False
+    if staged:
+        if set(dsg.graph.nodes) == n_raw and not init_auto:
+            for u, v in staged:          # edit the INITIALISED object in place, then initialise it again
+                dsg.add_edge(N[u], N[v])
+            dsg = dsg.set_start_nodes({N[s] for s in spec['starts']})
+            prev = grab(dsg, prev)
+            b.staged = True
+        else:
+            return build(spec, ids=ids, initialize=initialize, constrain=constrain)
     if constrain:
         for ctype, members in spec.get('cc', []):
             nodes = [b.choices[m] if m in b.choices else N[m] for m in members]
